@@ -220,8 +220,11 @@ impl Database {
             -1,
         );
         self.set_value(&conflict_register_change);
-        // Replicate conflict keys to other replicas
-        replicate_change(&conflict_register_change, &self, &dbs);
+        // Replicate conflict keys to other replicas (a secondary applying the primary's decision
+        // got the record from the primary already)
+        if dbs.is_primary() || dbs.is_eligible() {
+            replicate_change(&conflict_register_change, &self, &dbs);
+        }
         if self.has_pendding_conflict(&change.key) {
             let pendding_conflict = self.list_conflicts_keys(&change.key);
             let values = pendding_conflict
